@@ -206,10 +206,10 @@ func coldMain(c *Ctx) int {
 	close(start)
 	wg.Wait()
 	// callers with the same role must have got the same answer
-	for w := 2; w < g; w++ {
+	for w := 6; w < g; w++ {
 		for i := range data {
-			if results[w][i] != results[w%2][i] {
-				fmt.Printf("COLD-MISMATCH caller %d vs %d on %s: %s vs %s\n", w, w%2, p.Ops[i].S, results[w][i], results[w%2][i])
+			if results[w][i] != results[w%6][i] {
+				fmt.Printf("COLD-MISMATCH caller %d vs %d on %s: %s vs %s\n", w, w%6, p.Ops[i].S, results[w][i], results[w%6][i])
 			}
 		}
 	}
@@ -233,6 +233,15 @@ func coldUse(b []byte, w int) (out string) {
 	if probe.Schema != string(gobl.EnvelopeSchema) {
 		// a bare source document: the first calculation (with whatever is migrated or derived on
 		// the way) happens here
+		if w%3 == 2 {
+			// every third caller's copy leaves its date to the clock
+			if v, err := ParseJV(b); err == nil && v.Get("issue_date") != nil {
+				v.Del("issue_date")
+				v.Del("value_date")
+				v.Del("op_date")
+				b = v.Encode(nil)
+			}
+		}
 		doc := new(schema.Object)
 		if err := json.Unmarshal(b, doc); err != nil {
 			return "parse:" + err.Error()
